@@ -375,3 +375,57 @@ def tail_into_cases(fn: ast.FunctionDef) -> ast.FunctionDef:
                     c.body = list(c.body) + copy.deepcopy(tail)
             return fn
     return fn
+
+
+def match_form(fn: ast.FunctionDef) -> ast.FunctionDef:
+    """A copy of `fn` in which a dispatch written as a chain of `if isinstance(x, C): … return/raise` statements (or an
+    if/elif chain of such tests) on one name is written as `match x: case C(): …` — the form the reviewed tree uses, so rules
+    that read the arms of the dispatch see the same thing either way.  Returned unchanged when the function already has a
+    `match`, when fewer than three arms test the same name, or when an arm other than the last can fall through (the next
+    test would then run, which a `match` does not do)."""
+    import copy
+    from sa.model import walk_no_nested
+    fn = copy.deepcopy(fn)
+    if any(isinstance(n, ast.Match) for n in walk_no_nested(fn)):
+        return fn
+
+    def isinst(t):
+        if isinstance(t, ast.Call) and isinstance(t.func, ast.Name) and t.func.id == "isinstance" and len(t.args) == 2 and isinstance(t.args[0], ast.Name):
+            cl = t.args[1].elts if isinstance(t.args[1], ast.Tuple) else [t.args[1]]
+            if all(isinstance(c, (ast.Name, ast.Attribute)) for c in cl):
+                return t.args[0].id, cl
+        return None
+
+    body = fn.body
+    start = next((i for i, st in enumerate(body) if isinstance(st, ast.If) and isinst(st.test)), None)
+    if start is None:
+        return fn
+    x = isinst(body[start].test)[0]
+    cases, j, wildcard = [], start, None
+    while j < len(body) and wildcard is None:
+        st = body[j]
+        if not (isinstance(st, ast.If) and isinst(st.test) and isinst(st.test)[0] == x):
+            break
+        cur = st
+        while True:
+            _, cl = isinst(cur.test)
+            pats = [ast.MatchClass(cls=c, patterns=[], kwd_attrs=[], kwd_patterns=[]) for c in cl]
+            cases.append(ast.match_case(pattern=pats[0] if len(pats) == 1 else ast.MatchOr(patterns=pats), guard=None, body=cur.body))
+            if len(cur.orelse) == 1 and isinstance(cur.orelse[0], ast.If) and isinst(cur.orelse[0].test) and isinst(cur.orelse[0].test)[0] == x:
+                cur = cur.orelse[0]
+                continue
+            if cur.orelse:
+                wildcard = cur.orelse
+            break
+        j += 1
+    if len(cases) < 3:
+        return fn
+    from sa.inline import _always_leaves
+    if any(not _always_leaves(c.body) for c in cases[:-1]):
+        return fn
+    if wildcard is not None:
+        cases.append(ast.match_case(pattern=ast.MatchAs(pattern=None, name=None), guard=None, body=wildcard))
+    m = ast.copy_location(ast.Match(subject=ast.Name(id=x, ctx=ast.Load()), cases=cases), body[start])
+    fn.body = body[:start] + [m] + body[j:]
+    ast.fix_missing_locations(fn)
+    return fn
